@@ -6,6 +6,7 @@
    over".  It holds initially (C06_init) and every episode re-establishes it
    (C06_episode), so the theorems apply after any number of episodes, i.e. to every way
    of cutting the stream into reads and would-block points. *)
+From Amq Require Import Lib.RsVal Gen.SrcFrameBuf Proofs.FrameBufSrc.
 From Amq Require Import Lib.Base Gen.Consts Model.Wire Model.FrameBuf Spec.FrameBuf Proofs.FrameBuf.
 
 Theorem C06_init : forall accepts, Rel accepts [] new_fbuf [].
@@ -56,6 +57,18 @@ Proof.
   eapply read_from_not_stuck; [|exact Ht|exact Hrun]. unfold ep_fuel. lia.
 Qed.
 
+(* THE MODEL IS THE SOURCE: Inner::read_from of src/frame_buffer.rs - the loop that cuts the inbound byte stream into
+   frames - as translated from the source text on every run (Gen/SrcFrameBuf.v, tools/rs2sm.py: the `loop` is a
+   recursive function on fuel), for EVERY buffer content, EVERY behaviour of the transport (non-empty chunks of any
+   size, would-block, end of stream, error) and every outcome of the payload parser and of the frame handler, hands
+   on the same frames in the same order, keeps the same bytes buffered and returns the same result as
+   Model/FrameBuf.v's read_from - the function C06_episode / C06_malformed / C06_eof / C06_terminates are about.
+   ext_st_model is InputBuffer::{chunk, advance, prepare_reserve(..).read_from}, Kind::parse_frame (envelope rules +
+   parser oracle) and the handler; ext_model Kind::parse_size (Model/Wire.v), MIN_READ (Gen/Consts.v) and
+   io::Error::kind. *)
+Theorem C06_read_from_source_is_model : forall (accepts : N -> bool) (handler : N -> bytes -> bool) (hv stream : val) (fuel : nat) (fb : fbuf) (script : list rd) (delivered : list (N * bytes)), chunks_nonempty script -> snd (fst (fst (read_from accepts handler fuel fb 0 script))) <> EpStuck -> gen_Inner_read_from ext_model (ext_st_model accepts handler) fuel (enc_self fb script delivered) stream hv = (let '(hs, r, fb', sc') := read_from accepts handler fuel fb 0 script in (enc_self fb' sc' (delivered ++ hs), enc_ep r)).
+Proof. exact read_from_source_is_model. Qed.
+
 (* non-vacuity: two heartbeat frames cut in the middle of the second one *)
 Example C06_example :
   let hb := [8; 0; 0; 0; 0; 0; 0; 206] in
@@ -92,9 +105,13 @@ Check C06_terminates : forall accepts fb nread script hs res fb' sc',
   read_from accepts okh (ep_fuel fb script) fb nread script = (hs, res, fb', sc') ->
   res <> EpStuck.
 
+Check C06_read_from_source_is_model : forall (accepts : N -> bool) (handler : N -> bytes -> bool) (hv stream : val) (fuel : nat) (fb : fbuf) (script : list rd) (delivered : list (N * bytes)), chunks_nonempty script -> snd (fst (fst (read_from accepts handler fuel fb 0 script))) <> EpStuck -> gen_Inner_read_from ext_model (ext_st_model accepts handler) fuel (enc_self fb script delivered) stream hv = (let '(hs, r, fb', sc') := read_from accepts handler fuel fb 0 script in (enc_self fb' sc' (delivered ++ hs), enc_ep r)).
+
 Print Assumptions C06_init.
 Print Assumptions C06_episode.
 Print Assumptions C06_malformed.
 Print Assumptions C06_eof.
 Print Assumptions C06_terminates.
 Print Assumptions C06_example.
+Print Assumptions C06_read_from_source_is_model.
+Print Assumptions read_from_source_example.
